@@ -16,12 +16,36 @@ let rec int_of_pos (p : positive) : int =
   match p with Coq_xH -> 1 | Coq_xO q -> 2 * int_of_pos q | Coq_xI q -> 2 * int_of_pos q + 1
 let int_of_z (z : coq_Z) : int =
   match z with Z0 -> 0 | Zpos p -> int_of_pos p | Zneg p -> - (int_of_pos p)
+(* arbitrary precision: decimal strings <-> Z, through the extracted BinInt.Z operations (native ints hold 62 bits only) *)
+let z_of_decimal (t : string) : coq_Z =
+  let neg = Stdlib.String.length t > 0 && t.[0] = '-' in
+  let ten = z_of_int 10 in
+  let acc = ref Z0 in
+  Stdlib.String.iteri (fun i c -> if not (i = 0 && neg) then
+    acc := BinInt.Z.add (BinInt.Z.mul !acc ten) (z_of_int (Stdlib.Char.code c - 48))) t;
+  if neg then BinInt.Z.opp !acc else !acc
+let rec pos_bits (p : positive) : int = match p with Coq_xH -> 1 | Coq_xO q | Coq_xI q -> 1 + pos_bits q
+let decimal_of_z (z : coq_Z) : string =
+  let small p = pos_bits p <= 60 in
+  match z with
+  | Z0 -> "0"
+  | Zpos p when small p -> string_of_int (int_of_pos p)
+  | Zneg p when small p -> string_of_int (- (int_of_pos p))
+  | _ ->
+    let neg = (match z with Zneg _ -> true | _ -> false) in
+    let chunk = z_of_int 1000000000000000 in      (* 10^15 *)
+    let rec go (a : coq_Z) (acc : string list) : string list =
+      if a = Z0 then acc else
+      let (q, r) = BinInt.Z.div_eucl a chunk in
+      let d = string_of_int (int_of_z r) in
+      if q = Z0 then d :: acc else go q ((Stdlib.String.make (15 - Stdlib.String.length d) '0' ^ d) :: acc) in
+    (if neg then "-" else "") ^ Stdlib.String.concat "" (go (BinInt.Z.abs z) [])
 let rec nat_of_int (n : int) : nat = if n <= 0 then O else S (nat_of_int (n - 1))
 let int_of_nat (n : nat) : int =
   let rec go acc = function O -> acc | S m -> go (acc + 1) m in go 0 n
 
 (* ---------- input values ---------- *)
-type v = I of int | L of v list
+type v = I of int | B of string | L of v list      (* B: a decimal integer too long for a native int *)
 
 exception Parse of string
 
@@ -47,20 +71,22 @@ let parse (s : string) : v =
         let start = !pos in
         incr pos;
         while !pos < n && s.[!pos] >= '0' && s.[!pos] <= '9' do incr pos done;
-        I (int_of_string (Stdlib.String.sub s start (!pos - start)))
+        let tok = Stdlib.String.sub s start (!pos - start) in
+        if Stdlib.String.length tok <= 18 then I (int_of_string tok) else B tok
     | _ -> raise (Parse ("unexpected char at " ^ string_of_int !pos))
   in
   let r = value () in r
 
-let int_ = function I n -> n | L _ -> raise (Parse "int expected")
-let list_ = function L l -> l | I _ -> raise (Parse "list expected")
+let int_ = function I n -> n | B _ -> raise (Parse "native int expected") | L _ -> raise (Parse "int expected")
+let list_ = function L l -> l | I _ | B _ -> raise (Parse "list expected")
 let bool_ x = int_ x <> 0
-let zlist x = Stdlib.List.map (fun y -> z_of_int (int_ y)) (list_ x)
+let zval = function I n -> z_of_int n | B t -> z_of_decimal t | L _ -> raise (Parse "int expected")
+let zlist x = Stdlib.List.map zval (list_ x)
 let zlistlist x = Stdlib.List.map zlist (list_ x)
-let z_ x = z_of_int (int_ x)
+let z_ x = zval x
 let nat_ x = nat_of_int (int_ x)
 let items names values : (coq_Z * coq_Z) list =
-  Stdlib.List.map2 (fun a b -> (z_of_int (int_ a), z_of_int (int_ b))) (list_ names) (list_ values)
+  Stdlib.List.map2 (fun a b -> (zval a, zval b)) (list_ names) (list_ values)
 (* bins given as [[sum, names, values], ...] *)
 let bins_in x : (coq_Z * coq_Z) Binner.bins =
   Stdlib.List.map (fun b -> match list_ b with
@@ -70,7 +96,7 @@ let optnat x = let n = int_ x in if n < 0 then None else Some (nat_of_int n)
 let optz x = match x with L [] -> None | L [y] -> Some (z_ y) | _ -> raise (Parse "optz")
 
 (* ---------- output ---------- *)
-let pz z = string_of_int (int_of_z z)
+let pz z = decimal_of_z z
 let pnat n = string_of_int (int_of_nat n)
 let plist f l = "[" ^ Stdlib.String.concat "," (Stdlib.List.map f l) ^ "]"
 let pitem (x : coq_Z * coq_Z) = pz (fst x)          (* items are printed by name *)
